@@ -229,7 +229,16 @@ func runC13(w *World) {
 		}
 	}
 	var ready, fin simrt.WaitQ
-	nready, finished := 0, 0
+	nready, finished, woken := 0, 0, 0
+	goneCount := func() int {
+		k := 0
+		for i := 0; i <= n; i++ {
+			if gone[i] {
+				k++
+			}
+		}
+		return k
+	}
 	finish := func() {
 		finished++
 		simrt.Wake(&fin)
@@ -390,8 +399,19 @@ func runC13(w *World) {
 			}
 			simrt.Sleep(8 * time.Second)
 			if c.Closed {
+				woken++
+				simrt.Wake(&fin)
 				return
 			}
+			// every remaining user becomes active once more (clears any away mark and tells the others), then,
+			// when that traffic has settled, fetches the server's current list
+			c.UserList()
+			woken++
+			simrt.Wake(&fin)
+			for woken < n+1-goneCount() {
+				simrt.Park(&fin)
+			}
+			simrt.Sleep(6 * time.Second)
 			fresh, ok := c.UserList()
 			if !ok {
 				w.Violate("c13-final-list", "client %d could not fetch the final user list", idx)
@@ -447,7 +467,7 @@ func runC13(w *World) {
 			if _, dup := fresh[u.ID]; dup {
 				w.Violate("c13-duplicate-id-in-list", "user list contains id %d twice", u.ID)
 			}
-			fresh[u.ID] = c13User{u.ID, u.Name, u.Icon, u.Flags &^ flagAway}
+			fresh[u.ID] = c13User{u.ID, u.Name, u.Icon, u.Flags} // nobody is away any more: every user was just active
 		}
 		// the fresh list against the model: every connected user exactly once with its current name/icon/flags
 		if rosterString(fresh) != rosterString(model) {
@@ -464,10 +484,6 @@ func runC13(w *World) {
 		if !ok {
 			w.Violate("c13-no-list-reply", "client %d never got its user list", c.Idx)
 			continue
-		}
-		for k, u := range folded {
-			u.Flags &^= flagAway
-			folded[k] = u
 		}
 		if rosterString(folded) != rosterString(fresh) {
 			w.Violate("c13-roster-does-not-converge", "client %d: list folded from notifications %s, server's current list %s", c.Idx, rosterString(folded), rosterString(fresh))
